@@ -164,6 +164,13 @@ func rulesGen(r *rand.Rand, lane string) *rulesCase {
 		beyond := ruleKey(id, clen)
 		c.Sources[beyond] = "beyond\n"
 		invalid = append(invalid, [2]interface{}{id, clen})
+		// ... and further beyond it (where the next rules' own chains lie)
+		for _, more := range []int{1, 2, 3, 5} {
+			if core.Chance(r, 1, 2) {
+				c.Sources[ruleKey(id, clen+more)] = "farbeyond\n"
+				invalid = append(invalid, [2]interface{}{id, clen + more})
+			}
+		}
 		nb := r.Intn(3)
 		for j := 0; j < nb; j++ {
 			other := ids[r.Intn(len(ids))]
